@@ -85,6 +85,24 @@ CHECKS["C09"] = dict(
     technique="Lean 4 proof (ZMod p, ring) over a translated model incl. aliasing variants + correspondence for the hand-modelled parts",
     design="§4 C09", note=NOTE_BASE)
 
+CHECKS["C20"] = dict(
+    text=("Machine-checked theorems (Props/C20.lean) about Gen/Ptx.lean, the Lean definitions regenerated on every run by "
+          "tools/tr_ptx.py from the PTX asm strings, operand lists and surrounding C++ of src/gl64_t.cuh for BOTH "
+          "__CUDA_ARCH__ >= 700 and < 700 (configuration GL64_PARTIALLY_REDUCED undefined), over the PTX semantics of "
+          "Isa/Ptx.lean: operator+=/-=/cneg/unary minus return the canonical result for all canonical operands; "
+          "multiplication by element and by 32-bit word, squaring and the final reduction return the canonical result for "
+          "ALL 64-bit operands (the documented tolerance of partially reduced multiplicands), both variants, which therefore "
+          "agree word for word; and about Gen/PtxTables.lean: for all 33 rows omegas = Goldilocks::W, omegas*omegas_inv = 1, "
+          "domain_size_inverse[i]*2^i = 1, all canonical (kernel evaluation). Tie: REGENERATION ONLY - no nvcc / GPU exists "
+          "here, nothing is executed on an implementation (traces_validated_against_impl = 0); the generated model is executed "
+          "against python integers as translator/ISA self-check and failing-input search."),
+    technique="Lean 4 proof over a model translated from the PTX inline asm (both arch variants) + kernel-evaluated tables; regeneration only",
+    design="§4 C20",
+    note=("Trusted: Lean 4.33 kernel; axioms propext/Classical.choice/Quot.sound only (audited each run); the PTX semantics of "
+          "Isa/Ptx.lean, written from the PTX ISA manual and NOT validated on hardware; translator tools/tr_ptx.py (clang-14 as "
+          "textual preprocessor only); nvcc's inline-asm contract (distinct virtual registers for outputs and inputs, program "
+          "order of volatile asm, predicate scope across asm statements); gl64_device::W keeps its initialiser."))
+
 NOT_YET = {
 }
 
